@@ -126,8 +126,9 @@ def converters_total(ck, F):
                 e = ("call", c.callee, [body.expr(a) for a in c.args], c)
             else:
                 continue
-            names = [x[1].split("::")[-1] for x in expr_calls(e)]
-            if not any(x in ("char_indices", "chars", "encode_utf16") for x in names):
+            from lib import call_names_deep
+            names = call_names_deep(body, e)       # also through an accumulator local built up in a loop
+            if not any(x in ("char_indices", "chars", "encode_utf16", "len_utf16") for x in names):
                 bad.append(show(e)[:80])
         ck.require(bool(defs) and not bad, "C20:UTF16:converter-total:%s" % body.path.split("::")[-1], "position units",
                    "every value %s returns is computed by walking the characters of the line" % body.path.split("::")[-1],
@@ -295,6 +296,25 @@ def unfiltered(ck, F, ml):
         ck.require(".text" in txt, "C20:DIAG:latest-text#%d" % k, "nothing filtered",
                    "analyze() receives the text carried by the notification",
                    "a notification handler analyses something other than the text it was sent: %s" % txt, c.span)
+
+
+    # diagnostics and tokens always reflect the latest text: the document table is only ever overwritten (`insert`) or
+    # pruned -- never consulted first (`entry().or_insert_with(..)`, `get_or_insert..`, `contains_key` guarding the analysis),
+    # which would keep serving the analysis of an older text for the same URI
+    from lib import with_closures
+    stale = []
+    for hb in [b for b in F.bodies.values() if b.crate == "abasic_lsp"]:
+        for c in hb.calls():
+            nm = c.callee.split("::")[-1]
+            if nm in ("entry", "or_insert_with", "or_insert", "or_default", "or_insert_with_key", "try_insert") and "HashMap" in c.callee + " ".join(c.gargs) or \
+                    (nm in ("or_insert_with", "or_insert", "or_default") and "Entry" in c.callee):
+                if "SourceFileAnalyzer" in " ".join(c.gargs) + c.callee + str(hb.local_ty(c.dest["local"])):
+                    stale.append("%s uses %s on the document table" % (hb.path.split("::")[-1], nm))
+        if "::{closure" in hb.path and hb.calls_to("SourceFileAnalyzer::analyze"):
+            stale.append("SourceFileAnalyzer::analyze is called lazily from a closure (%s)" % hb.path.split("::", 1)[-1])
+    ck.require(not stale, "C20:DIAG:no-stale-analysis", "nothing filtered",
+               "the document table is overwritten on every open / change, never consulted first",
+               "the server can keep serving the analysis of an older text: %s" % "; ".join(sorted(set(stale))), ml.span)
 
 
 def run_thorough(ck, F, E):
